@@ -20,6 +20,7 @@ import (
 
 	"github.com/cloudwego/thriftgo/generator/backend"
 	"github.com/cloudwego/thriftgo/generator/golang"
+	"github.com/cloudwego/thriftgo/generator/golang/styles"
 	"github.com/cloudwego/thriftgo/parser"
 	"github.com/cloudwego/thriftgo/semantic"
 
@@ -63,6 +64,17 @@ func optOn(opts []string, name string, def bool) bool {
 	return on
 }
 
+// resetNamingStyles: the naming styles are process-wide singletons (styles.NewNamingStyle hands out shared
+// instances) and `ignore_initialisms` switches the shared instance: a thriftgo PROCESS is not affected, a process
+// that builds several CodeUtils (this harness, the generator worker) must undo it between units.
+func resetNamingStyles() {
+	for _, n := range styles.NamingStyles() {
+		if st := styles.NewNamingStyle(n); st != nil {
+			st.UseInitialisms(true)
+		}
+	}
+}
+
 // loadAST runs the front end of thriftgo in process (as sdk.InvokeThriftgo does).
 func loadAST(idlDir, main string) (*parser.Thrift, error) {
 	t, err := parser.ParseFile(filepath.Join(idlDir, filepath.FromSlash(main)), []string{idlDir}, true)
@@ -104,6 +116,7 @@ func tieOps(out *vl.Out, key, idlDir, main, unitDir, backendName string, opts []
 	if err != nil {
 		return "frontend:" + firstLine(err.Error())
 	}
+	resetNamingStyles()
 	cu := golang.NewCodeUtils(backend.DummyLogFunc())
 	all := append(append([]string{}, opts...), "package_prefix=batch/"+key)
 	if err := cu.HandleOptions(all); err != nil {
@@ -131,10 +144,10 @@ func tieOps(out *vl.Out, key, idlDir, main, unitDir, backendName string, opts []
 	var lines []line
 	emit := func(op, impl string) { lines = append(lines, line{op, impl}) }
 	h := vl.Hex
-	emit(fmt.Sprintf("U %s %s compat=%s kuf=%s deq=%s setter=%s noproc=%s enumann=%s fm=%s halfway=%s", key, backendName,
+	emit(fmt.Sprintf("U %s %s compat=%s kuf=%s deq=%s setter=%s noproc=%s enumann=%s fm=%s halfway=%s adaptor=%s", key, backendName,
 		vl.B(optOn(opts, "compatible_names", false)), vl.B(optOn(opts, "keep_unknown_fields", false)), vl.B(optOn(opts, "gen_deep_equal", false)),
 		vl.B(optOn(opts, "gen_setter", false)), vl.B(optOn(opts, "no_processor", false)), vl.B(optOn(opts, "get_enum_annotation", false)),
-		vl.B(optOn(opts, "with_field_mask", false)), vl.B(optOn(opts, "field_mask_halfway", false))), "ok")
+		vl.B(optOn(opts, "with_field_mask", false)), vl.B(optOn(opts, "field_mask_halfway", false)), vl.B(optOn(opts, "apache_adaptor", false))), "ok")
 	identSeen := map[string]bool{}
 	ident := func(raw string) string {
 		id, err := cu.Identify(raw)
@@ -387,12 +400,12 @@ func observeGo(unitDir, goRel string, fastgo bool) (*observation, error) {
 		}
 	}
 	sort.Strings(ob.globals)
-	sort.Strings(order)
 	for _, n := range order {
 		ms := append([]string(nil), members[n]...)
 		sort.Strings(ms)
 		ob.types = append(ob.types, n+"="+strings.Join(ms, ","))
 	}
+	sort.Strings(ob.types) // whole entries, as the model driver sorts them
 	sort.Strings(ob.params)
 	return ob, nil
 }
